@@ -57,14 +57,19 @@ def scenarios(rnd, wd, k, small=False, pfx="sc"):
         A = ref.build_file(cA, comp_type=0, hash_type=1, chunk_hash_type=3)[0]; B = ref.build_file(cB, comp_type=0, hash_type=1, chunk_hash_type=3)[0]
         pa = os.path.join(wd, tag + ".A"); pb = os.path.join(wd, tag + ".B"); open(pa, "wb").write(A); open(pb, "wb").write(B)
         hB = ref.parse_header(B)
-        out.append({"tag": tag, "D": D, "src": src, "cfg": cfg, "zck": out_zck, "A": pa, "B": pb, "Bbuf": B, "hB": hB, "slot": s})
+        # a header whose integers need every encoded width from one to nine bytes (declared data sizes 2^0 .. 2^56): whatever
+        # the parser keeps per integer width is first used here, by every thread
+        went = [{"clen": 0, "ulen": 0, "digest": bytes(16)}] + [{"clen": 3 + k, "ulen": 2 ** (7 * k), "digest": corpus.rand(rnd, 16)} for k in range(9)]
+        pw = os.path.join(wd, tag + ".widths"); open(pw, "wb").write(ref.build_header(hash_type=1, chunk_hash_type=3, flags=0, comp_type=2, entries=went, data_digest=bytes(32)) + bytes(100))
+        out.append({"tag": tag, "widths": pw, "D": D, "src": src, "cfg": cfg, "zck": out_zck, "A": pa, "B": pb, "Bbuf": B, "hB": hB, "slot": s})
     return out
 
 
 def scenario_lines(sc, suffix):
     s = sc["slot"]; tag = sc["tag"]
     zck = sc["zck"] + suffix; sink = sc["zck"] + suffix + ".out"; tgt = sc["zck"] + suffix + ".tgt"
-    L = ["ctx %d" % s, "open %d %s rwt" % (s, zck), "init_write %d %d" % (s, s)] + writegen.cfg_lines(sc["cfg"], s, "", tag)
+    L = ["ctx %d" % (s + 2), "open %d %s r" % (s + 2, sc["widths"]), "init_read %d %d" % (s + 2, s + 2), "dump %d" % (s + 2), "free %d" % (s + 2), "closefd %d" % (s + 2)]
+    L += ["ctx %d" % s, "open %d %s rwt" % (s, zck), "init_write %d %d" % (s, s)] + writegen.cfg_lines(sc["cfg"], s, "", tag)
     L += ["writeseg %d file:%s 8191" % (s, sc["src"]), "close %d" % s, "free %d" % s, "closefd %d" % s]
     # a header-only run (ZCK_NO_WRITE: nothing is written, the temporary file is given up early)
     nw = zck + ".nowrite"
@@ -170,52 +175,59 @@ def run(tier):
     # ---- (d) ThreadSanitizer, both hash back ends (quick tier too: build and run take a few seconds)
     if True:
         lib = []; nrep = 0
-        for tv in ("tsan", "tsanbundled"):
-            common.build(tv)
-            group = scenarios(rnd, wd, nthreads, small=True, pfx=tv)
-            for j, sc in enumerate(group):
-                sc["slot"] = j * 4
-            files = []
-            for j, sc in enumerate(group):
-                lines, o = scenario_lines(sc, "." + tv)
-                p = os.path.join(wd, "%s-%d.zs" % (tv, j)); open(p, "w").write("\n".join(lines) + "\n"); files.append(p)
-            errp = os.path.join(wd, tv + ".err")
-            tev = common.run_driver("case %s 600\nthreads %s\nend\n" % (tv, " ".join(files)), tv, env={"VERIF_NO_SEGV_HANDLER": "1", "ZV_SHIM_OFF": "1", "ZV_STAGGER_MS": os.environ.get("VERIF_C19_STAGGER_MS", "0")}, timeout=1200, stderr_path=errp)
-            if sum(1 for e in tev if e["op"] == "fetch" and e.get("multi") == 1) < len(group):
-                ck.notes.append("the scenarios did not run to their download phase under " + tv)
-            rep = open(errp, "rb").read().decode("latin1") if os.path.exists(errp) else ""
-            blocks = rep.split("WARNING: ThreadSanitizer")
-            harness_syms = set(); lib_syms = set()
-            def defined(path):
-                outp = subprocess.run(["nm", "--defined-only", path], stdout=subprocess.PIPE, text=True).stdout
-                return {l.split()[-1] for l in outp.splitlines() if l.split()}
-            for o in ("h/zckdrive.o", "h/shim.o"):
-                harness_syms |= defined(os.path.join(common.BUILD, tv, o))
-            for root, _, fs in os.walk(os.path.join(common.BUILD, tv, "obj")):
-                for f in fs:
-                    if f.endswith(".o") and "/src/lib" in root + "/":
-                        lib_syms |= defined(os.path.join(root, f))
-            def in_library(b):
-                """is the racing memory library-owned: a global defined by a library object, or a heap block
-                allocated from library code"""
-                m = re.search(r"Location is global '([^']+)'", b)
-                if m:
-                    name = m.group(1)            # clang names a function-local static "function.variable"
-                    return name in lib_syms or name.split(".")[0] in lib_syms
-                if "Location is heap block" in b:
-                    tail = b.split("Location is heap block", 1)[1]
-                    for fm in re.findall(r"#\d+ \S+ (\S+?):\d+", tail):
-                        if "/harness/" in fm:
-                            return False
-                        if "/src/lib/" in fm:
-                            return True
-                    return False
-                # stack or unknown location: library-owned if an access is made directly by library code
-                tops = re.findall(r"\n\s+#0 \S+ (\S+)", b)
-                return any("/src/lib/" in loc for loc in tops[:2])
-            lib += [b for b in blocks[1:] if "data race" in b.split("\n")[0] and in_library(b)]
-            nrep += len(blocks) - 1
-        ck.extra["tsan_reports"] = nrep; ck.extra["tsan_reports_in_library"] = len(lib)
+        # the serial footprint names library globals written outside the logging settings (or static I/O buffers): whether
+        # that is interference is the race detector's verdict, and one concurrent run can miss a race (which access is still
+        # in the detector's shadow words when the other thread arrives depends on the schedule) - so repeat while in doubt
+        suspect = any(t["op"] == "footprint" and (t["staticIoBufs"] or any(g not in ALLOWED_GLOBALS and g != "unknown" for g in t["globalsWritten"])) for t in trace)
+        attempts = 0
+        while attempts < (6 if suspect else 1) and not [b for b in lib if not re.search(r"Location is global 'unknown'", b)]:
+            attempts += 1
+            for tv in ("tsan", "tsanbundled"):
+                common.build(tv)
+                group = scenarios(rnd, wd, nthreads, small=True, pfx="%s%s" % (tv, "" if attempts == 1 else "r%d" % attempts))
+                for j, sc in enumerate(group):
+                    sc["slot"] = j * 4
+                files = []
+                for j, sc in enumerate(group):
+                    lines, o = scenario_lines(sc, "." + tv)
+                    p = os.path.join(wd, "%s-%d.zs" % (tv, j)); open(p, "w").write("\n".join(lines) + "\n"); files.append(p)
+                errp = os.path.join(wd, tv + ".err")
+                tev = common.run_driver("case %s 600\nthreads %s\nend\n" % (tv, " ".join(files)), tv, env={"VERIF_NO_SEGV_HANDLER": "1", "ZV_SHIM_OFF": "1", "ZV_STAGGER_MS": os.environ.get("VERIF_C19_STAGGER_MS", "0")}, timeout=1200, stderr_path=errp)
+                if sum(1 for e in tev if e["op"] == "fetch" and e.get("multi") == 1) < len(group):
+                    ck.notes.append("the scenarios did not run to their download phase under " + tv)
+                rep = open(errp, "rb").read().decode("latin1") if os.path.exists(errp) else ""
+                blocks = rep.split("WARNING: ThreadSanitizer")
+                harness_syms = set(); lib_syms = set()
+                def defined(path):
+                    outp = subprocess.run(["nm", "--defined-only", path], stdout=subprocess.PIPE, text=True).stdout
+                    return {l.split()[-1] for l in outp.splitlines() if l.split()}
+                for o in ("h/zckdrive.o", "h/shim.o"):
+                    harness_syms |= defined(os.path.join(common.BUILD, tv, o))
+                for root, _, fs in os.walk(os.path.join(common.BUILD, tv, "obj")):
+                    for f in fs:
+                        if f.endswith(".o") and "/src/lib" in root + "/":
+                            lib_syms |= defined(os.path.join(root, f))
+                def in_library(b):
+                    """is the racing memory library-owned: a global defined by a library object, or a heap block
+                    allocated from library code"""
+                    m = re.search(r"Location is global '([^']+)'", b)
+                    if m:
+                        name = m.group(1)            # clang names a function-local static "function.variable"
+                        return name in lib_syms or name.split(".")[0] in lib_syms
+                    if "Location is heap block" in b:
+                        tail = b.split("Location is heap block", 1)[1]
+                        for fm in re.findall(r"#\d+ \S+ (\S+?):\d+", tail):
+                            if "/harness/" in fm:
+                                return False
+                            if "/src/lib/" in fm:
+                                return True
+                        return False
+                    # stack or unknown location: library-owned if an access is made directly by library code
+                    tops = re.findall(r"\n\s+#0 \S+ (\S+)", b)
+                    return any("/src/lib/" in loc for loc in tops[:2])
+                lib += [b for b in blocks[1:] if "data race" in b.split("\n")[0] and in_library(b)]
+                nrep += len(blocks) - 1
+        ck.extra["tsan_reports"] = nrep; ck.extra["tsan_reports_in_library"] = len(lib); ck.extra["tsan_rounds"] = attempts
         known = {f["id"]: f for f in common.known_for("C19")}
         kn = [b for b in lib if re.search(r"Location is global 'unknown'", b)]
         lib = [b for b in lib if b not in kn]
